@@ -21,7 +21,11 @@ func init() {
 			"oracles: no panic/hang; a commit hit by a fault returns an error; after every item a read transaction sees exactly the last successful commit; lock idle; " +
 			"transactions that begin after the last failing call commit; after disarming, clean reopen shows the last successful state or completely the state of a " +
 			"commit whose only failures were syncs; then a further transaction commits; in addition every size/read/mmap call of Open on the final image is failed once (Open must return an error, " +
-			"release lock and mapping, and the next clean Open must show the committed state); distinct_nontrivial = distinct histories with >= 1 run in which the fault " +
+			"release lock and mapping, and the next clean Open must show the committed state), opens with a max-size update and a constructed shrinking open whose optional " +
+			"release transaction runs are swept the same way (a tolerated failure is followed by contents/partition checks, an allocate-everything transaction, a commit, a reopen, " +
+			"and an abandoned flushing transaction + reopen); for fault runs with a commit attempt that failed by syncs only the crash images from that attempt to the end of the " +
+			"run are enumerated (coverage.classes_totals fault-crash-*): each must show completely the last successful commit, the commit in progress or such an unconfirmed " +
+			"attempt; a quarter of the histories runs on small bounded files with fill and overflow-area transactions; distinct_nontrivial = distinct histories with >= 1 run in which the fault " +
 			"made a Commit fail and later transactions ran; fault run counts are in coverage.classes_totals",
 		Assume: []string{
 			"writer drained after every scheduling call so that the k-th call of a kind is a function of the program",
